@@ -118,7 +118,7 @@ def mutation_ops(r, m):
 
 
 def gen(r, tier):
-    n = {"quick": 4000, "search": 20000, "thorough": 60000}[tier]
+    n = {"quick": 3000, "search": 12000, "thorough": 20000}[tier]
     out = []          # byte strings
     # 1. pure random and short inputs, every length 0..64
     for k in range(0, 65):
@@ -153,14 +153,14 @@ def gen(r, tier):
     for t in range(0, 300, 1 if tier != "quick" else 3):
         mut.append("LE t@%d | %s" % (t, full))
     # 4. random messages with random structure-aware mutations
-    nm = {"quick": 1800, "search": 9000, "thorough": 30000}[tier]
+    nm = {"quick": 1300, "search": 5000, "thorough": 9000}[tier]
     for _ in range(nm):
         m = W.rmsg(r)
         mut.append("%s %s | %s" % (r.choice(["LE", "LE", "BE"]), mutation_ops(r, m) if r.random() < 0.9 else "-", W.msg_text(m)))
     for bx in real_encodings(mut):
         out.append(W.bx_decode(bx))
     # 5. floods: the cheapest submessages repeated, to probe the memory / cost bounds
-    sizes = [256, 1024, 2048] + ([8192, 65000] if tier != "quick" else [])
+    sizes = [256, 1024] + ([2048, 8192, 65000] if tier != "quick" else [])
     for sz in sizes:
         k = sz // 4
         out.append(HDR + sub(0x01, 1, b"") * k)                                   # PAD flood
@@ -174,7 +174,7 @@ def gen(r, tier):
         out.append(HDR + sub(0x09, 1, bytes(8)) * (sz // 12))
         out.append(HDR + sub(0x0f, 1, b"\x00\x00\x00\x00") * (sz // 8))            # INFO_REPLY, 0 locators
     # INFO_REPLY whose locator count points far beyond the submessage (quadratic memory)
-    for sz in ([512, 2048] if tier == "quick" else [512, 2048, 4096]):
+    for sz in ([512, 1024] if tier == "quick" else [512, 2048, 4096]):
         body = bytearray()
         nsub = sz // 8
         for i in range(nsub):
